@@ -14,6 +14,7 @@ def main() -> int:
             failures.append(f"{name}: got {got!r}, want {want!r}")
 
     expect("FCS-16('123456789')", fcs16.fcs(b"123456789"), 0x906E)  # CRC-16/X-25 check value
+    expect("fcs_fast == fcs", [fcs16.fcs_fast(bytes(range(n)) * 3) for n in (0, 1, 7, 200)], [fcs16.fcs(bytes(range(n)) * 3) for n in (0, 1, 7, 200)])
     expect("FCS good residue", fcs16.register(b"123456789" + fcs16.trailer(b"123456789")), 0xF0B8)
     expect("CRC-16/ARC('123456789')", crc16.crc16(b"123456789"), 0xBB3D)
     # captured frames from the DLMS documentation (also in the repository's tests)
